@@ -525,7 +525,20 @@ SubCopy(h, tag, t, d, s) ==
     /\ nodes' = nodes + 1
     /\ UNCHANGED <<nmsg, nlist, built, rootTree, done>>
 
+\* WriteField(handle.Field(tag), value, fn): the bytes of the value are written by a function of the caller (this is how
+\* generated code writes struct and enum fields).  When that function reports an error the writer fails for good
+\* (write.go WriteValue -> fail); a writer that has failed already does not call it.
+FieldFn(h, tag, d, fails) ==
+    /\ Budget /\ NodeBudget /\ (Misuse \/ InMsg)
+    /\ IF nmsg[h] THEN DeadCall([op |-> "field_fn", h |-> h, tag |-> tag, val |-> d, fails |-> fails])
+       ELSE /\ LET w == IF fails THEN R(Fail(m), FALSE) ELSE WriteBytes(m, EncodeScalar(Val(d)), d)
+                   r == IF ~w.ok THEN w ELSE Field(w.m, tag)
+               IN Step([op |-> "field_fn", h |-> h, tag |-> tag, val |-> d, fails |-> fails], r.m, RetOf(r.ok))
+            /\ nodes' = nodes + 1
+            /\ UNCHANGED <<nmsg, nlist, built, rootTree, done>>
+
 MacroStep ==
+    \/ \E mc \in Macros : \E h \in MsgHandles : mc.op = "field_fn" /\ FieldFn(h, mc.tag, mc.val, mc.fails)
     \/ \E mc \in Macros : \E h \in MsgHandles : mc.op = "sub_copy" /\ SubCopy(h, mc.tag, mc.tag2, mc.val, mc.src)
     \/ \E mc \in Macros : \E l \in ListHandles : mc.op = "elem_repeat" /\ ElemRepeat(l, mc.val, mc.n)
     \/ \E mc \in Macros : \E h \in MsgHandles : mc.op = "field_repeat" /\ FieldRepeat(h, mc.val, mc.tag, mc.n)
